@@ -1,6 +1,6 @@
 from ..scanner import Scanner
 from ..scanner_utils import is_space, eat_quoted
-from .utils import ElementType, Chars, consume_array, is_terminator, consume_section, ident
+from .utils import ElementType, Chars, HTMLTags, consume_array, is_terminator, consume_section, ident
 from .attributes import attributes, attribute_name, attribute_value, eat_equals, get_attribute_value
 
 cdata_open = '<![CDATA['
@@ -137,8 +137,9 @@ def is_special(special: dict, name: str, source: str, start: int, end: int):
             return True
 
         attrs = attributes(source[start + len(name) + 1:end - 1])
-        # NB: media type is case-insensitive: `type="text/JavaScript"`
-        value = get_attribute_value(attrs, 'type') or ''
+        # NB: media type is case-insensitive: `type="text/JavaScript"`, in HTML
+        # the attribute name is as well: `<script TYPE="text/template">`
+        value = get_attribute_value(attrs, 'type', isinstance(special, HTMLTags)) or ''
         return value.strip().lower() in type_values
 
     return False
